@@ -392,7 +392,8 @@ func TestVerifC10HostDispatch(t *testing.T) {
 		"each case: 0-12 host interface names (eth/en prefixes, tiny alphabet, names that are prefixes of others), wildcard host endpoint configured or not, entry point HostDispatchChains(applyOnForward true/false) / FromHostDispatchChains / ToHostDispatchChains, renderer iptables/nft; "+
 			"probes = every name, +-1 character, proper prefixes, prefix+x, unrelated non-workload names. Non-trivial = >=2 names share a bucket and an unknown probe falls into it; distinct = renderer/entry/wildcard/bucket multiset",
 		"endpoint chains are stubs; expected chain names come from rules.EndpointChainName (naming is property C37's subject)",
-		"unknown probes are restricted to names that do not match a workload interface prefix (the to-host dispatch deliberately returns for local workload interfaces)")
+		"interfaces with a workload prefix (1-2 configured prefixes) are probed too: they must reach no host endpoint chain when no wildcard host endpoint exists, and in the egress dispatch rendered with applyOnForward=false also when one exists; the other variants are only entered for non-workload interfaces, so nothing is asserted there",
+		"the interface on the other side of the packet (none / host / workload / known host interface) is drawn per case and must not influence the dispatch")
 	defer rec.Write()
 	rapid.Check(t, func(t *rapid.T) {
 		nft := rapid.Bool().Draw(t, "nft")
@@ -403,7 +404,8 @@ func TestVerifC10HostDispatch(t *testing.T) {
 		for _, n := range names {
 			isKnown[n] = true
 		}
-		cfg := c10Config("DROP", []string{"cali"})
+		wlPrefixes := [][]string{{"cali"}, {"cali", "tap"}}[c10Idx(t, "workload-prefixes", 2)]
+		cfg := c10Config("DROP", wlPrefixes)
 		rr := rules.NewRenderer(cfg, nft)
 		eps := map[string]types.HostEndpointID{}
 		for _, n := range names {
@@ -458,21 +460,62 @@ func TestVerifC10HostDispatch(t *testing.T) {
 			}
 		}
 		buckets, cp := c10BucketStats(names)
-		probes := c10Probes(names, []string{"eth0", "lo", "ens3", "bond0", "e", "wlan0"})
-		nearMiss := 0
-		for _, probe := range probes {
-			if strings.HasPrefix(probe, "cali") {
-				continue
+		// Workload-side probes: interfaces with a workload prefix (short, 15 characters, bare prefix).
+		var wlProbes []string
+		for _, p := range wlPrefixes {
+			wlProbes = append(wlProbes, p, p+"1234", p+"a", (p + "ab1ab1ab1ab1ab1")[:c10MaxIfaceLen])
+		}
+		hasWlPrefix := func(s string) bool {
+			for _, p := range wlPrefixes {
+				if strings.HasPrefix(s, p) {
+					return true
+				}
 			}
+			return false
+		}
+		probes := c10Probes(names, append([]string{"eth0", "lo", "ens3", "bond0", "e", "wlan0"}, wlProbes...))
+		// The interface on the other side of the packet must not influence the dispatch: none
+		// (host-originated / host-terminated traffic), a workload interface, a host interface.
+		others := []string{"", "eth9", wlPrefixes[len(wlPrefixes)-1] + "77"}
+		if len(names) > 0 {
+			others = append(others, names[c10Idx(t, "other-known-host-iface", len(names))])
+		}
+		other := others[c10Idx(t, "other-iface", len(others))]
+		otherClass := "other-iface-host"
+		if other == "" {
+			otherClass = "other-iface-none"
+		} else if hasWlPrefix(other) {
+			otherClass = "other-iface-workload"
+		}
+		nearMiss, wlToSkips := 0, 0
+		for _, probe := range probes {
 			for _, d := range dirs {
-				in, out := probe, "eth9"
+				in, out := probe, other
 				if !d.in {
-					in, out = "eth9", probe
+					in, out = other, probe
 				}
 				res, reached := c10Run(t, l, d.entry, in, out)
+				if hasWlPrefix(probe) {
+					// A workload interface belongs to the workload dispatch ("its own policy chain and
+					// no other"): the host dispatch must not hand it to any host endpoint chain in the
+					// places where the dispatch chain itself is what keeps workload traffic out:
+					// always when no wildcard host endpoint is configured, and with a wildcard host
+					// endpoint in the egress dispatch rendered with applyOnForward=false ("We never
+					// apply wildcard HEP normal policy for traffic going to a local workload").  The
+					// remaining variants are only ever entered for non-workload interfaces (static
+					// chains divert workload interfaces first), so the statement is silent there.
+					if !wildcard || (!d.in && (entryKind == 1 || entryKind == 3)) {
+						wlToSkips++
+						if len(reached) != 0 || res.Verdict != nfsim.VerdictReturn {
+							t.Fatalf("C10 violated: traffic on workload interface %q must not be handed to a host endpoint chain (in=%q out=%q)\nhost dispatch chain %q (%s), wildcard HEP configured: %v, workload prefixes %v\nknown host names: %v\nreached endpoint chains: %v verdict=%s\nrendered:\n%s",
+								probe, in, out, d.entry, map[bool]string{false: "iptables", true: "nftables"}[nft], wildcard, wlPrefixes, names, reached, res.Verdict, l.rs.Dump())
+						}
+					}
+					continue
+				}
 				desc := func() string {
-					return fmt.Sprintf("host dispatch chain %q (%s), probe interface %q, wildcard HEP configured: %v\nknown names: %v\nreached endpoint chains: %v verdict=%s\nrendered:\n%s",
-						d.entry, map[bool]string{false: "iptables", true: "nftables"}[nft], probe, wildcard, names, reached, res.Verdict, l.rs.Dump())
+					return fmt.Sprintf("host dispatch chain %q (%s), probe interface %q (in=%q out=%q), wildcard HEP configured: %v, workload prefixes %v\nknown names: %v\nreached endpoint chains: %v verdict=%s\nrendered:\n%s",
+						d.entry, map[bool]string{false: "iptables", true: "nftables"}[nft], probe, in, out, wildcard, wlPrefixes, names, reached, res.Verdict, l.rs.Dump())
 				}
 				if res.Verdict != nfsim.VerdictReturn {
 					t.Fatalf("C10 violated: host dispatch issued a verdict of its own\n%s", desc())
@@ -507,14 +550,19 @@ func TestVerifC10HostDispatch(t *testing.T) {
 			}
 		}
 		sort.Ints(bs)
-		classes := []string{map[bool]string{false: "iptables", true: "nft"}[nft], fmt.Sprintf("entry-%d", entryKind), map[bool]string{false: "no-wildcard-hep", true: "wildcard-hep"}[wildcard]}
+		classes := []string{map[bool]string{false: "iptables", true: "nft"}[nft], fmt.Sprintf("entry-%d", entryKind), map[bool]string{false: "no-wildcard-hep", true: "wildcard-hep"}[wildcard],
+			otherClass, fmt.Sprintf("workload-prefixes-%d", len(wlPrefixes))}
+		if wildcard && (entryKind == 1 || entryKind == 3) {
+			classes = append(classes, "wildcard-hep-egress-dispatch-with-workload-out-iface", "wildcard-egress-"+otherClass)
+		}
 		if maxBucket >= 2 {
 			classes = append(classes, "shared-bucket")
 		}
 		if len(names) == 0 {
 			classes = append(classes, "no-endpoints")
 		}
-		key := fmt.Sprintf("%v/%d/%v/%s/%v", nft, entryKind, wildcard, cp, bs)
+		_ = wlToSkips
+		key := fmt.Sprintf("%v/%d/%v/%s/%v/%s/%d", nft, entryKind, wildcard, cp, bs, otherClass, len(wlPrefixes))
 		rec.SizedCase(maxBucket >= 2 && nearMiss > 0, key, len(names), func() any {
 			return map[string]any{"renderer": classes[0], "entry": entryKind, "wildcard": wildcard, "names": names, "probes": len(probes),
 				"rendered": strings.Split(l.rs.Dump(), "\n")}
